@@ -1,11 +1,43 @@
-(** C13 - instructions the selected device lacks are rejected (examples; theorems follow). *)
-From Coq Require Import List ZArith NArith String.
+(** C13 - instructions the selected device lacks are rejected; all others are unaffected.
+    Property theorems only; proofs are in Proofs/GateProofs.v. *)
+From Coq Require Import List ZArith NArith String Bool.
 Import ListNotations.
-Require Import AvraV.Model.Base AvraV.Model.Ast AvraV.Model.Passes.
+Require Import AvraV.Model.Base AvraV.Model.Ast AvraV.Model.Device AvraV.Model.Eval AvraV.Model.Encode.
+Require Import AvraV.Model.Parse AvraV.Model.Passes AvraV.Spec.GateSpec AvraV.Proofs.GateProofs AvraV.Gen.Devices.
+
+(** For EVERY set of feature flags (all 2^16, not only the rows of the device table), every
+    operation and every operand list: the gate pass 2 applies lets the instruction through iff no
+    flag the device carries removes that instruction form according to the flag documentation
+    (Spec/GateSpec.disabled). *)
+Theorem C13_gate : forall (d : device) (o : operation) (args : list iop),
+  check_instruction d o args = available d o args.
+Proof. exact gate_spec. Qed.
+Check C13_gate : forall (d : device) (o : operation) (args : list iop),
+  check_instruction d o args = available d o args.
+Print Assumptions C13_gate.
+
+(** An instruction that passes the gate is encoded exactly as with any other device selected -
+    the device enters the encoder through nothing but the reduced-core flag, and that flag matters
+    for lds/sts only (their one-word form; C01 covers its encoding). *)
+Theorem C13_same_code : forall fuel c d op args pc,
+  match op with OLds | OSts => False | _ => True end ->
+  process fuel (ctx_set_device c d) op args pc = process fuel c op args pc.
+Proof. exact device_irrelevant. Qed.
+Print Assumptions C13_same_code.
+
+(** pass 2 consults exactly this gate: a gated-out instruction is an error naming its line *)
+Theorem C13_pass2_rejects : forall fuel t c cur out cp op args,
+  check_instruction (dev c) op args = false ->
+  pass2_item fuel t (c, cur, out) (cp, IInstr op args) = Err (Some (fst cp)).
+Proof. intros. unfold pass2_item. cbn [dev ctx_set_pc]. rewrite H. reflexivity. Qed.
+Print Assumptions C13_pass2_rejects.
+
 Definition builds (src : string) : bool := is_ok (build_str 200 (list_ascii_of_string src)).
 Definition nl := String (Ascii.ascii_of_N 10) EmptyString.
 Example C13_examples :
   builds (".device ATtiny11" ++ nl ++ "ld r0, X" ++ nl) = false /\ builds (".device ATtiny11" ++ nl ++ "ld r0, Z" ++ nl) = true /\
   builds (".device ATmega8" ++ nl ++ "call 0" ++ nl) = false /\ builds (".device ATmega8" ++ nl ++ "mul r1, r2" ++ nl) = true /\
-  builds (".device ATtiny13" ++ nl ++ "muls r16, r17" ++ nl) = false.
+  builds (".device ATtiny13" ++ nl ++ "muls r16, r17" ++ nl) = false /\
+  disabled NoLpmX OLpm [OR8 0; OIndex (INone RZ)] = true /\ disabled NoLpmX OLpm [] = false /\
+  available {| flash_size := 1; ram_start := 0; ram_size := 0; eeprom_size := 0; opts := [NoYreg] |} OLdd [OR8 1; OIndex (IPostIncE RY (EConst 1))] = false.
 Proof. vm_compute. repeat split; reflexivity. Qed.
